@@ -125,8 +125,16 @@ func checkCancel(c Case) *pk.Failure {
 		pk.Class("finished-first")
 	}
 	if c.Backend == "vm" {
-		if !r.Residue.LockFree || r.Residue.Cores != 0 {
+		// The cores lock must be free. The list of cores must be empty after a run that finished by itself; after
+		// a cancellation a core that was inside its quantum when Wait() emptied the list can still register a
+		// freshly spawned core (it dies at its first poll: the goroutine check below sees to that), so the
+		// length of the list is not judged then.
+		cancelled := r.Outcome.Class == "terminated"
+		if !r.Residue.LockFree || (r.Residue.Cores != 0 && !cancelled) {
 			return pk.Failf("cancel", "vm cores-left", "%s: after Wait() cores=%d lockFree=%v\n%s", id, r.Residue.Cores, r.Residue.LockFree, c.Text)
+		}
+		if r.Residue.Cores != 0 {
+			pk.Extra("late-registered-cores-after-cancel", 1)
 		}
 	}
 	if r.GoroutinesAfter > r.GoroutinesBefore {
